@@ -190,7 +190,7 @@ NoRunDuringCb      == (cbs > 0) => admitted = {}
 ClosedMeansIdle    == closed => (running = 0 /\ admitted = {})
 StepClauses        == bad = {}        \* CloseWaits, PostCloseFails, NoAdmitAfterCallbacks (evaluated in the steps)
 OnceOwner          == (once = "busy") <=> (\E p \in Procs : pc[p] \in {"c_begin", "in_wait", "woken", "c_cb", "c_done"})
-TypeOK == /\ running \in -3..6 /\ cbs \in 0..3
+TypeOK == /\ running \in -3..(2 * Cardinality(Procs)) /\ cbs \in 0..3
           /\ \A p \in Procs : ip[p] \in 1..(Len(script[p]) + 1)
 
 Blocked(p) == pc[p] \in {"fin", "in_wait", "in_once", "in_done"}
